@@ -18,3 +18,23 @@ def run(prop, tier, seed, rule, level="exploration", needs=(), assumptions=(), e
         rep.need(key, minimum, what)
     rep.assumptions = list(assumptions)
     return rep
+
+
+def replay_job(prop, rep_json, module, func, extra=None, mode=None):
+    """Runs one recorded witness through a worker function returning {'fails': [...]}."""
+    from framework.common import Job
+
+    w = rep_json["witness"]
+    task = {"witness": w, "prop": prop}
+    task.update(extra or {})
+    j = Job(module, func, task, mode=mode or w.get("mode", "interp"), timeout=900)
+    common.run_jobs([j])
+    if j.status != "ok":
+        print("replay could not run: %s\n%s" % (j.status, (j.stderr or "")[-1500:]))
+        return 2
+    fails = j.result["fails"]
+    for f in fails:
+        print("VIOLATION property=%s replay=<replayed>\n  %s: %s" % (prop, f.get("kind"), f.get("detail")))
+    if not fails:
+        print("replay: property %s holds on the recorded case" % prop)
+    return 1 if fails else 0
